@@ -16,6 +16,13 @@ FULL_ALPHABET = ['ctx', 'reg', 'reg', 'life', 'life', 'life', 'loop', 'loop', 'p
                  'tb', 'fd', 'fd', 'tmr', 'srclen', 'errno', 'flags', 'prio', 'pill', 'tick']
 
 
+def gen_fragments():
+    """tie A of the core machine: guard prefixes of every entry point + inventory of static objects, from /repo as it is now"""
+    import os, vlib, gen_core
+    ch = gen_core.generate(os.path.join(vlib.LEAN, 'Lm', 'Generated'))
+    return 'CoreGuards.lean, Statics.lean ' + ('changed' if ch else 'unchanged')
+
+
 def wellformed(lines):
     return True
 
